@@ -88,23 +88,59 @@ Definition non_rel_columns (cols : list str) : list str :=
 
 Definition has_label (label : str) (p : pair) : bool := str_eqb label (fst p) || str_eqb label (snd p).
 
-Definition diagonal (cols : list str) (label : str) : list pair :=
-  map (fun c => (c, c)) (filter (fun c => negb (str_eqb c label)) cols).
+Definition pair_eqb (p q : pair) : bool := str_eqb (fst p) (fst q) && str_eqb (snd p) (snd q).
+Definition listedb (p : pair) (l : list pair) : bool := existsb (pair_eqb p) l.
+
+(* "Diagonal elements (non-label) that are not listed yet": listed_combinations = set(combinations) is taken once,
+   before the diagonal is appended *)
+Definition diagonal (base : list pair) (cols : list str) (label : str) : list pair :=
+  map (fun c => (c, c)) (filter (fun c => negb (str_eqb c label) && negb (listedb (c, c) base)) cols).
 
 Definition candidates (cols : list str) (h tro label : str) : list pair :=
   let base :=
     if is_3mr h then cwr2 (non_rel_columns cols) ++ map (fun c => (c, label)) (rel_columns cols)
     else if is_tonly tro then filter (has_label label) (cwr2 cols)
     else cwr2 cols in
-  if is_tonly tro then base else base ++ diagonal cols label.
+  if is_tonly tro then base else base ++ diagonal base cols label.
+
+(* ---------- the reference-model filter of mixed_rank_graph (prior heuristics only) ---------- *)
+Definition s_join_and : str := [32; 65; 78; 68; 32]%N.                        (* ' AND ' *)
+Definition c_comma : N := 44%N.                                               (* ',' *)
+Definition prior_heurs : list str :=                                          (* core_utils.is_prior_heuristic *)
+  [[115; 117; 114; 114; 111; 103; 97; 116; 101; 45; 83; 71; 68];              (* 'surrogate-SGD' *)
+   [115; 117; 114; 114; 111; 103; 97; 116; 101; 45; 83; 86; 77];              (* 'surrogate-SVM' *)
+   [115; 117; 114; 114; 111; 103; 97; 116; 101; 45; 83; 71; 68; 45; 82; 80]]%N.  (* 'surrogate-SGD-RP' *)
+
+(* Python: s.split(sep) for a one-character separator *)
+Fixpoint split_on (sep : N) (s : str) : list str :=
+  match s with
+  | [] => [[]]
+  | x :: t => if N.eqb x sep then [] :: split_on sep t
+              else match split_on sep t with [] => [[x]] | h :: r => (x :: h) :: r end
+  end.
+Fixpoint join_with (sep : str) (l : list str) : str :=
+  match l with
+  | [] => []
+  | x :: t => match t with [] => x | _ => x ++ sep ++ join_with sep t end
+  end.
+(* (' AND ').join(tuple(sorted(item.split(',')))) *)
+Definition norm_ref (item : str) : str := join_with s_join_and (sort_str (split_on c_comma item)).
+
+(* [ref] = the 'features' list of the reference model JSON, None when args.reference_model_JSON == '' *)
+Definition ref_names (h : str) (ref : option (list str)) : list str :=
+  match ref with
+  | Some items => if memb h prior_heurs then map norm_ref items else []
+  | None => []
+  end.
+(* comb[0] not in reference_model_features and comb[1] not in reference_model_features *)
+Definition ref_filter (refs : list str) (cands : list pair) : list pair :=
+  filter (fun p => negb (memb (fst p) refs) && negb (memb (snd p) refs)) cands.
 
 (* args.combination_number_upper_bound after the call (the 3mr branch clamps it in place) *)
 Definition eff_cap (h : str) (cap : Z) : Z :=
   if is_3mr h then (if (max_features_3mr <? cap)%Z then max_features_3mr else cap) else cap.
 
 (* ---------- the cap: prior_combinations_sample on the candidate list ---------- *)
-Definition pair_eqb (p q : pair) : bool := str_eqb (fst p) (fst q) && str_eqb (snd p) (snd q).
-
 (* the counter is keyed by the tuple; inside one candidate list a tuple is identified with the position of its
    first occurrence *)
 Fixpoint pidx (cands : list pair) (p : pair) : nat :=
@@ -244,7 +280,8 @@ Record C06_case := mkCase {
   c_tro : str;                (* args.target_ranking_only *)
   c_label : str;              (* args.label_column *)
   c_cap : Z;                  (* args.combination_number_upper_bound *)
-  c_batches : nat             (* calls of mixed_rank_graph on the same frame, shared counter *)
+  c_batches : nat;            (* calls of mixed_rank_graph on the same frame, shared counter *)
+  c_ref : option (list str)   (* 'features' of the reference model JSON; None when args.reference_model_JSON == '' *)
 }.
 
 Record C06_obs := mkObs {
@@ -254,6 +291,7 @@ Record C06_obs := mkObs {
 }.
 
 Definition C06_cands (c : C06_case) : list pair := candidates (c_cols c) (c_heur c) (c_tro c) (c_label c).
+Definition C06_refs (c : C06_case) : list str := ref_names (c_heur c) (c_ref c).
 
 (* the transcription's observable: rows in selection order (the identity is one possible shuffle), scores supplied *)
 Definition C06_model (c : C06_case) (scores : list (list score)) : C06_obs :=
@@ -261,12 +299,12 @@ Definition C06_model (c : C06_case) (scores : list (list score)) : C06_obs :=
   let cap' := eff_cap (c_heur c) (c_cap c) in
   mkObs cands cap'
         (map (fun es => build_rows (c_heur c) (fst es) (snd es))
-             (combine (select_run [] cands cap' (c_batches c)) scores)).
+             (combine (select_run [] (ref_filter (C06_refs c) cands) cap' (c_batches c)) scores)).
 
 Definition C06_check (c : C06_case) (o : C06_obs) : bool :=
   cands_okb_fast (c_cols c) (c_heur c) (c_tro c) (c_label c) (o_cands o)
   && Z.eqb (o_cap o) (eff_cap (c_heur c) (c_cap c))
-  && forallb (rows_okb_fast (c_cols c) (c_heur c) (o_cands o) (o_cap o)) (o_rows o).
+  && forallb (rows_okb_fast (c_cols c) (c_heur c) (ref_filter (C06_refs c) (o_cands o)) (o_cap o)) (o_rows o).
 
 (* list-level comparison with the transcription (informational when the set-level checker accepts) *)
 Fixpoint pairs_eqb (l l' : list pair) : bool :=
@@ -297,7 +335,7 @@ Definition C06_eval (names : list str) (c : C06_case) (cands_ix : list (nat * na
   (chk,
    if chk then None
    else Some (cands_okb_fast (c_cols c) (c_heur c) (c_tro c) (c_label c) ocands, caps_ok,
-              map (rows_okb_fast (c_cols c) (c_heur c) ocands cap') orows),
+              map (rows_okb_fast (c_cols c) (c_heur c) (ref_filter (C06_refs c) ocands) cap') orows),
    pairs_eqb (C06_cands c) ocands,
    (* same multiset of unordered pairs as the transcription (what C06_target_only_once / C06_pairwise_multiplicity
       speak about); on a mismatch the transcription's list is returned as column positions *)
@@ -305,9 +343,9 @@ Definition C06_eval (names : list str) (c : C06_case) (cands_ix : list (nat * na
     (ms, if ms then [] else map (ixp (c_cols c)) (C06_cands c))),
    if with_sel then
      let osamp := map (map (fun ij : nat * nat => (nm (fst ij), nm (snd ij)))) samp_ix in
-     map (fun ab => same_ucounts (c_cols c) (fst ab) (snd ab)) (combine (select_run [] (C06_cands c) cap' (c_batches c)) osamp)
+     map (fun ab => same_ucounts (c_cols c) (fst ab) (snd ab)) (combine (select_run [] (ref_filter (C06_refs c) (C06_cands c)) cap' (c_batches c)) osamp)
    else [],
-   (length (C06_cands c), slice_len (length ocands) cap', nodup_strb (c_cols c) && memb (c_label c) (c_cols c))).
+   (length (C06_cands c), slice_len (length (ref_filter (C06_refs c) ocands)) cap', nodup_strb (c_cols c) && memb (c_label c) (c_cols c))).
 
 Definition C06_eval_light (c : C06_case) :=
   let cap' := eff_cap (c_heur c) (c_cap c) in
